@@ -178,6 +178,15 @@ func checkC10(r *mon.Run) {
 		}
 		if check("Unmarshal", &a2, len(j.buf)-bb.Len(), bb.Bytes()) {
 			r.Distinct(key("Unmarshal"))
+			// the decoded value must not depend on the caller's buffer afterwards
+			bb.Next(bb.Len())
+			bb.Write(bytes.Repeat([]byte{0xEE}, len(j.buf)+64))
+			var enc2 bytes.Buffer
+			if p := tryP(func() { a2.Marshal(&enc2) }); p != "" || !bytes.Equal(enc2.Bytes(), j.buf[:consumed]) || !bytes.Equal(a2.AuthInfo.CertData, ref.Data) {
+				r.Violation("C10|Unmarshal|aliases-callers-buffer", "after the caller reused its buffer the decoded descriptor changed / no longer re-encodes to the consumed bytes "+p, replay)
+				return
+			}
+			r.Count("buffer_reuse_checks", 1)
 		}
 		// (4) the WIN_CERTIFICATE_UEFI_GUID part on its own
 		wb := j.buf[16:]
